@@ -415,8 +415,11 @@ func shrinkFSched(c *rig.Ctx, s FSchedCase) FSchedCase {
 func fschedSchema(c *rig.Ctx, name string, kind int) *Schema {
 	s := Schema{Name: rig.Hex(name), Strategy: rig.Hex("")}
 	switch kind {
-	case 0: // max-in-flight
+	case 0: // max-in-flight; now and then a numeric extreme (resized in place to a small limit by a later Sync)
 		s.Mi = i32(int32(c.Rng.Intn(4)))
+		if c.Rng.Intn(12) == 0 {
+			s.Mi = i32(rig.Pick(c.Rng, []int32{2147483647, 2147483646, 1 << 30}))
+		}
 	case 1: // token bucket that never refuses within a test
 		s.Tb = &[2]int32{1000000, 1000000}
 	case 2:
